@@ -113,7 +113,7 @@ def _places_of(st):
 def r3(ctx, prop=P, rule="C10.R3"):
     S, _ = storage_set(ctx)
     commit_callees = (BF_UPDATE, BF_SET_RANGE, UCL, MT_COMMIT, EVENTS_SEND, MT_ADD_NODE)
-    n = 0
+    n = n0 = 0
     for fname in R3_FNS:
         bodies = ctx.crate.group(fname)
         if not bodies:
@@ -127,6 +127,18 @@ def r3(ctx, prop=P, rule="C10.R3"):
                     continue
                 ch = result_edges(fa, s)
                 if ch is None:
+                    # the outcome is never branched on in this body (handed on as a value:
+                    # returned as is, or fed to a combinator such as `a.and(b)` whose argument is
+                    # evaluated regardless): then nothing that has an effect may follow the call,
+                    # because it would follow a failed call as well
+                    r0 = fa.reach(s, include_src=False)
+                    later0 = [x for x, tt in fa.calls() if x in r0 and x != s and (tt.get("callee") in RA_ALL or callee_of(tt) in S or callee_of(tt) in commit_callees)]
+                    if "Result<" in (t.get("dest_ty") or "") or is_future_ty(t.get("dest_ty") or ""):
+                        n0 += 1
+                        ctx.check(prop, rule, "%s: outcome of %s @%s is examined before anything else happens" % (fname.split("::")[-1], c.split("::")[-1], _ord(fa, s)), not later0,
+                                  "the unexamined result is the last effect of the function",
+                                  "the outcome of %s at %s is not branched on, yet the function goes on with %s: after a failed call it continues to issue operations" % (c, loc(fa, s), [site_desc(fa, x) for x in later0]),
+                                  [site_desc(fa, s)], key="%s|%s|%s|%s|unexamined then continues" % (prop, rule, fname, c))
                     continue
                 n += 1
                 note = ""
